@@ -13,6 +13,7 @@ from common import Infra, EVIDENCE, seed  # noqa: E402
 CHECKS = {
     "C13": ("props_pipeline", "check_c13"),
     "C14": ("props_pipeline", "check_c14"),
+    "C12": ("props_validate", "check_c12"),
 }
 
 
